@@ -253,6 +253,12 @@ pub struct World {
     /// settle mode: every healthy sink is ready, no cooperative pendings
     pub settle: bool,
     pub mock_calls: u64,
+    /// items yielded by publisher / requestor streams so far
+    pub yields: u64,
+    /// (n, f): when the n-th item is yielded — i.e. while the router is inside `poll()` — `f` runs (it closes the
+    /// registration channel, as a shutdown arriving in the middle of a busy scheduling step does)
+    pub close_on_yield: Option<(u64, Box<dyn FnMut() + Send>)>,
+    pub closed_at_yield: Option<u64>,
 }
 
 pub type Shared = Arc<Mutex<World>>;
@@ -273,6 +279,9 @@ impl World {
             peers: vec![],
             items: vec![],
             rng: Rng::new(seed),
+            yields: 0,
+            close_on_yield: None,
+            closed_at_yield: None,
             settle: false,
             mock_calls: 0,
         }
@@ -419,6 +428,13 @@ impl Stream for MockStream {
                     st.yielded.push((t_now, uid));
                     let frame = w.items[uid].frame.clone();
                     w.push(EvKind::Call { peer, op: Op::Next, out: Out::Item, ix: Some(uid) });
+                    w.yields += 1;
+                    if w.close_on_yield.as_ref().map_or(false, |c| c.0 == w.yields) {
+                        let (_, mut f) = w.close_on_yield.take().unwrap();
+                        f();
+                        w.closed_at_yield = Some(w.yields);
+                        w.act("registration channel closed (the router is inside poll)".into());
+                    }
                     Poll::Ready(Some(Ok(frame)))
                 }
                 QItem::Err => {
